@@ -188,6 +188,8 @@ class Gen:
         for cid, info in tv.scope.items():
             if info.cls != cls or info.kind not in kinds:
                 continue
+            if info.const:
+                continue        # literal-defined columns trip the Polars optimizer (D51) and the D42 family
             if nonnull and info.nullable:
                 continue
             if cid not in vis and not hidden_ok:
@@ -316,7 +318,7 @@ class Gen:
                 return self.fn("fill_null", E("bool"), E("bool"))
         if cls == "string":
             # no str.upper: SQLite's LIKE-based operators are case-insensitive (section 4.5), the alphabet is lower-case only
-            k = r.choice(["concat", "lower", "lower", "strip", "replace", "fill_null", "case", "coalesce", "cast_int", "hmax", "slice"])
+            k = r.choice(["concat", "lower", "lower", "strip", "replace", "fill_null", "case", "coalesce", "cast_int", "hmax"])   # no str.slice: D54
             if k == "concat":
                 return self.fn("add", E("string"), E("string"))
             if k in ("upper", "lower", "strip"):
